@@ -908,7 +908,12 @@ void subtotal_posts::operator()(post_t& post)
   account_t * acct = post.reported_account();
   assert(acct);
 
-  value_t amount(post.amount);
+  // A posting generated by another subtotalling handler (--by-payee, --dow, a
+  // period) for a multi-commodity value carries that value in compound_value
+  // and has a null amount.
+  value_t amount(post.has_xdata() &&
+                 post.xdata().has_flags(POST_EXT_COMPOUND) ?
+                 post.xdata().compound_value : value_t(post.amount));
 
   post.xdata().compound_value = amount;
   post.xdata().add_flags(POST_EXT_COMPOUND);
